@@ -19,8 +19,13 @@ pub fn main(tier: &str) {
             println!("R\t{}\t{}\t{:016x}", inp.name, name, r);
             refs.push(r);
         }
+        let big = inp.g.number_of_nodes() > 100;
         for (k, pool) in &pools {
-            for rep in 0..reps {
+            // big inputs: fewer pool sizes and one repetition in the quick tier
+            if big && tier == "quick" && ![3usize, 16].contains(k) {
+                continue;
+            }
+            for rep in 0..(if big { 1 } else { reps }) {
                 for (name, f) in &cs {
                     let d = pool.install(|| f());
                     println!("D\t{}\t{}\t{}\t{}\t{:016x}", inp.name, name, k, rep, d);
